@@ -397,7 +397,9 @@ Definition verified_request : pystr := PS "__verified_request".
 Definition authz_verify (c : mclass) (nonce_kw : option pystr) (m : msg) : res msg :=
   _ <- generic_verify c m ;;
   let m1 := adel verified_request m in
-  if has_key (PS "request") m1 || has_key (PS "id_token_hint") m1 then Unmodelled else
+  (* a request passed by reference (request_uri) is complete only after the provider has fetched the object: its
+     nonce / consent rules are applied to the assembled request (153df1e; modelled in Model/Jar.v, property C16) *)
+  if has_key (PS "request") m1 || has_key (PS "id_token_hint") m1 || has_key (PS "request_uri") m1 then Unmodelled else
   _ <- authz_rules nonce_kw m1 ;;
   Ok m1.
 
